@@ -68,7 +68,7 @@ type Call struct {
 
 type Node struct {
 	Snap        raft.SnapshotStorage // the (unwrapped) snapshot storage of the current incarnation
-	Parked      *int32 // InstallSnapshot handlers currently running or parked in this incarnation
+	Parked      *int32               // InstallSnapshot handlers currently running or parked in this incarnation
 	ID          string
 	Addr        string
 	Dir         string
